@@ -318,4 +318,398 @@ theorem sendSomeWritable_hs (C : Cfg) (hC : 1 < C.stepsMax) (P : HsP) (r : Bool)
         exact this
     · exact Or.inr hk
 
+/-! ### part 3: an asynchronous endpoint of role `u` with a send queue, and a polling synchronous peer -/
+
+structure SysAG where
+  /-- the asynchronous endpoint: driver-side state, TLS glue, engine; `x.s.w` are the channels -/
+  x : ASt Hs Chan
+  /-- the polling peer -/
+  gp : Glue := {}
+  ep : Hs
+  faults : Nat := 0
+
+/-- `drive` = one `Driver::Step`; `enq buf` = the user calls `Send(buffer)` on the asynchronous socket;
+`peer k` = the peer calls `Send(payload, 0)` / `Receive(n, 0)` -/
+inductive ActG where
+  | drive
+  | enq (buf : Bytes)
+  | peer (k : Kind)
+  deriving DecidableEq, Repr
+
+def SysAG.rev (u : Bool) (y : SysAG) : REvents := { rd := decide (0 < y.x.s.w.inb u), wr := true, hupErr := false }
+
+def SysAG.pw (y : SysAG) : PeerW := ⟨y.x.s.w, y.gp, y.ep, [], y.faults⟩
+
+def SysAG.step (C : Cfg) (P : HsP) (u : Bool) (dc ds : Bytes) (rx : Nat) (y : SysAG) : ActG → SysAG
+  | .drive =>
+    let r := aTask C (chanWorld u) (engine P) rx (aQuery (engine P) y.x) (y.rev u)
+    { y with x := r.2, faults := y.faults + (if isOk r.1 then 0 else 1) }
+  | .enq buf => { y with x := enqueue y.x buf }
+  | .peer k =>
+    { y with gp := (y.pw.poll C P u dc ds k).g, ep := (y.pw.poll C P u dc ds k).e,
+             x := { y.x with s := { y.x.s with w := (y.pw.poll C P u dc ds k).ch } },
+             faults := (y.pw.poll C P u dc ds k).faults }
+
+theorem driveG_is_aApply (C : Cfg) (P : HsP) (u : Bool) (dc ds : Bytes) (rx : Nat) (y : SysAG) :
+    (y.step C P u dc ds rx .drive).x = aApply C (chanWorld u) (engine P) rx y.x (.step (y.rev u)) := rfl
+
+theorem enqG_is_aApply (C : Cfg) (P : HsP) (u : Bool) (dc ds : Bytes) (rx : Nat) (y : SysAG) (buf : Bytes) :
+    (y.step C P u dc ds rx (.enq buf)).x = aApply C (chanWorld u) (engine P) rx y.x (.enq buf) := rfl
+
+/-- the initial state: `q` = the buffers already queued (`AsyncWantSend` has set `POLLOUT` if there are any) -/
+def SysAG.init (P : HsP) (u : Bool) (segs : List Nat) (q : List Bytes) : SysAG :=
+  { x := { a := { sendQ := q, pollOut := !q.isEmpty }, s := ⟨{}, Hs.init P u, { segs := segs }⟩ }, ep := Hs.init P (!u) }
+
+def SysAG.run (C : Cfg) (P : HsP) (u : Bool) (dc ds : Bytes) (rx : Nat) (l : List ActG) (y : SysAG) : SysAG :=
+  l.foldl (SysAG.step C P u dc ds rx) y
+
+def SysAG.bothFinished (y : SysAG) : Prop := 3 ≤ y.x.s.e.stage ∧ 3 ≤ y.ep.stage
+
+def ActG.okG : ActG → Prop
+  | .drive => True
+  | .enq buf => buf ≠ []
+  | .peer k => k.ok
+
+instance (a : ActG) : Decidable a.okG := by
+  cases a <;> unfold ActG.okG <;> exact inferInstance
+
+/-- the glue without flags and without the remembered retry buffer -/
+def nfp (s : St Hs Chan) : St Hs Chan :=
+  { s with g := { s.g with isReadable := false, isWritable := false, pendingSend := [] } }
+
+def SysAG.sys (u : Bool) (y : SysAG) : Sys := mkSys u (nfp y.x.s).g y.x.s.e y.pw
+
+/-- the state between steps -/
+structure GInv (P : HsP) (u : Bool) (dc ds : Bytes) (y : SysAG) : Prop where
+  inv : SysInv P dc ds (y.sys u)
+  ir : y.x.s.g.isReadable = false
+  reg : y.x.a.registered = true
+  /-- `Armed` (Props/C18.lean, `pollout_protocol`) -/
+  armed : y.x.a.sendQ ≠ [] → (y.x.a.pollOut = true ∨ y.x.s.g.driverSendSuppressed = true)
+  armed' : (y.x.a.pollOut = true ∨ y.x.s.g.driverSendSuppressed = true) → y.x.a.sendQ ≠ []
+  excl : ¬ (y.x.a.pollOut = true ∧ y.x.s.g.driverSendSuppressed = true)
+  /-- an unfinished engine is waiting for a flight and the glue knows it - or has not been touched yet -/
+  tight : y.x.s.e.stage < 3 → y.x.s.g.lastError = .wantRead ∨
+    (y.x.s.e = Hs.init P u ∧ y.x.s.g.lastError = .none ∧ y.x.s.g.driverSendSuppressed = false)
+  /-- an asynchronous CLIENT has something to send until its handshake is done (else it would never start) -/
+  fed : u = true → y.x.s.e.stage < 3 → y.x.a.sendQ ≠ []
+  pend : y.x.s.g.pendingSend = [] ∨ ∃ rest, y.x.a.sendQ = y.x.s.g.pendingSend :: rest
+  qne : ∀ b ∈ y.x.a.sendQ, b ≠ []
+
+theorem sideInv_repend (P : HsP) (r : Bool) (d d' : Bytes) (g : Glue) (e : Hs) (w w' : Chan) (p : Bytes)
+    (h : SideInv P r d ⟨g, e, w⟩) (hp : p = [] ∨ p = d') : SideInv P r d' ⟨{ g with pendingSend := p }, e, w'⟩ := by
+  obtain ⟨h1, h2, h3, h4, h5, h6, h7, _⟩ := h
+  exact ⟨h1, h2, h3, h4, h5, h6, h7, hp⟩
+
+theorem sysInv_side (P : HsP) (u : Bool) (dc ds : Bytes) (g : Glue) (h : Hs) (w : PeerW)
+    (hinv : SysInv P dc ds (mkSys u g h w)) : SideInv P u (ownPay u dc ds) ⟨g, h, w.ch⟩ := by
+  cases u with
+  | true => have := hinv.1; simpa [mkSys, ownPay] using this
+  | false => have := hinv.2.1; simpa [mkSys, ownPay] using this
+
+/-- the side invariant of the asynchronous endpoint, for the buffer `d` it is about to send -/
+theorem GInv.side {P : HsP} {u : Bool} {dc ds : Bytes} {y : SysAG} (hy : GInv P u dc ds y) (d : Bytes)
+    (hd : y.x.s.g.pendingSend = [] ∨ y.x.s.g.pendingSend = d) : SideInv P u d (nf y.x.s) := by
+  have h := sysInv_side P u dc ds _ _ _ hy.inv
+  exact sideInv_repend P u _ d (nfp y.x.s).g y.x.s.e y.x.s.w y.x.s.w y.x.s.g.pendingSend h hd
+
+/-- the invariant of the composition after a move of the asynchronous side -/
+theorem sys_upd (P : HsP) (u : Bool) (dc ds : Bytes) (y : SysAG) (hy : SysInv P dc ds (y.sys u)) (d : Bytes)
+    (s' : St Hs Chan) (hside : SideInv P u d (nf s')) (ht : Tr P u y.x.s.e y.x.s.w s'.e s'.w) (a' : Async)
+    (f : Nat) (hf : f = y.faults) :
+    SysInv P dc ds (SysAG.sys u { y with x := ⟨a', s'⟩, faults := f }) := by
+  subst hf
+  have hside' : SideInv P u (ownPay u dc ds) ⟨(nfp s').g, s'.e, s'.w⟩ :=
+    sideInv_repend P u d _ (nf s').g s'.e s'.w s'.w [] hside (Or.inl rfl)
+  exact sysInv_upd P u dc ds (nfp y.x.s).g (nfp s').g y.x.s.e s'.e y.pw s'.w hy hside' ht
+
+/-- `DriverQuery` touches the `POLLOUT` bit and `driverSendSuppressed` only -/
+def requery (x : ASt Hs Chan) (po sup : Bool) : ASt Hs Chan :=
+  { a := { x.a with pollOut := po }, s := { x.s with g := { x.s.g with driverSendSuppressed := sup } } }
+
+theorem aQuery_cases (P : HsP) (x : ASt Hs Chan) (hreg : x.a.registered = true)
+    (hle : x.s.g.lastError = .none ∨ x.s.g.lastError = .wantRead) :
+    ∃ po sup, aQuery (engine P) x = requery x po sup ∧
+      ((x.s.e.stage < 3 ∧ x.s.g.lastError = .wantRead ∧ po = false ∧ sup = (x.s.g.driverSendSuppressed || x.a.pollOut)) ∨
+       (x.s.e.stage < 3 ∧ x.s.g.lastError = .none ∧ po = x.a.pollOut ∧ sup = x.s.g.driverSendSuppressed) ∨
+       (3 ≤ x.s.e.stage ∧ x.s.g.driverSendSuppressed = true ∧ po = true ∧ sup = false) ∨
+       (3 ≤ x.s.e.stage ∧ x.s.g.driverSendSuppressed = false ∧ po = x.a.pollOut ∧ sup = false)) := by
+  rcases x with ⟨⟨sendQ, po0, reg, fut, del, disc⟩, ⟨⟨le, ps, rt, ir, iw, dss, pe, wire, bw, ec⟩, e, w⟩⟩
+  simp only at hreg hle
+  subst hreg
+  by_cases hfin : 3 ≤ e.stage
+  · have hi : (engine P).initFinished e = true := by simp [engine, hfin]
+    cases dss with
+    | true => exact ⟨true, false, by simp [aQuery, driverQuery, hi, requery], Or.inr (Or.inr (Or.inl ⟨hfin, rfl, rfl, rfl⟩))⟩
+    | false =>
+      exact ⟨po0, false, by simp [aQuery, driverQuery, hi, requery], Or.inr (Or.inr (Or.inr ⟨hfin, rfl, rfl, rfl⟩))⟩
+  · have hi : (engine P).initFinished e = false := by simp [engine]; omega
+    have hlt : e.stage < 3 := by omega
+    rcases hle with h | h
+    · subst h
+      exact ⟨po0, dss, by simp [aQuery, driverQuery, hi, requery], Or.inr (Or.inl ⟨hlt, rfl, rfl, rfl⟩)⟩
+    · subst h
+      exact ⟨false, dss || po0, by simp [aQuery, driverQuery, hi, requery], Or.inl ⟨hlt, rfl, rfl, rfl⟩⟩
+
+/-- the part of a driver step after `DriverQuery` -/
+def SysAG.task (C : Cfg) (P : HsP) (u : Bool) (rx : Nat) (y : SysAG) : SysAG :=
+  { y with x := (aTask C (chanWorld u) (engine P) rx y.x (y.rev u)).2,
+           faults := y.faults + (if isOk (aTask C (chanWorld u) (engine P) rx y.x (y.rev u)).1 then 0 else 1) }
+
+theorem drive_eq_task (C : Cfg) (P : HsP) (u : Bool) (dc ds : Bytes) (rx : Nat) (y : SysAG) (po sup : Bool)
+    (hq : aQuery (engine P) y.x = requery y.x po sup) :
+    y.step C P u dc ds rx .drive = SysAG.task C P u rx { y with x := requery y.x po sup } := by
+  simp only [SysAG.step, SysAG.task, hq]
+  rfl
+
+theorem GInv.lastErr {P : HsP} {u : Bool} {dc ds : Bytes} {y : SysAG} (hy : GInv P u dc ds y) :
+    y.x.s.g.lastError = .none ∨ y.x.s.g.lastError = .wantRead :=
+  (sysInv_side P u dc ds _ _ _ hy.inv).2.2.2.2.2.1
+
+theorem GInv.reads {P : HsP} {u : Bool} {dc ds : Bytes} {y : SysAG} (hy : GInv P u dc ds y) :
+    y.x.s.g.lastError = .wantRead → y.x.s.e.stage < 3 → y.x.s.e.writes = false :=
+  (sysInv_side P u dc ds _ _ _ hy.inv).2.2.2.2.2.2.1
+
+theorem GInv.wf {P : HsP} {u : Bool} {dc ds : Bytes} {y : SysAG} (hy : GInv P u dc ds y) : WF P y.x.s.e :=
+  (sysInv_side P u dc ds _ _ _ hy.inv).2.2.2.2.1
+
+/-- `DriverQuery` keeps the invariant; and if the endpoint can progress but nothing is readable, it leaves `POLLOUT`
+requested -/
+theorem requery_inv (P : HsP) (u : Bool) (dc ds : Bytes) (y : SysAG) (hy : GInv P u dc ds y) (po sup : Bool)
+    (hcase : (y.x.s.e.stage < 3 ∧ y.x.s.g.lastError = .wantRead ∧ po = false ∧ sup = (y.x.s.g.driverSendSuppressed || y.x.a.pollOut)) ∨
+       (y.x.s.e.stage < 3 ∧ y.x.s.g.lastError = .none ∧ po = y.x.a.pollOut ∧ sup = y.x.s.g.driverSendSuppressed) ∨
+       (3 ≤ y.x.s.e.stage ∧ y.x.s.g.driverSendSuppressed = true ∧ po = true ∧ sup = false) ∨
+       (3 ≤ y.x.s.e.stage ∧ y.x.s.g.driverSendSuppressed = false ∧ po = y.x.a.pollOut ∧ sup = false)) :
+    GInv P u dc ds { y with x := requery y.x po sup } ∧
+    (CanProg u y.x.s.e y.x.s.w → y.x.s.w.inb u = 0 → po = true) := by
+  have hside := hy.side y.x.s.g.pendingSend (Or.inr rfl)
+  have hinv : SysInv P dc ds (SysAG.sys u { y with x := requery y.x po sup }) :=
+    sys_upd P u dc ds y hy.inv y.x.s.g.pendingSend (requery y.x po sup).s hside
+      (Tr.refl P u y.x.s.e y.x.s.w hy.wf) (requery y.x po sup).a y.faults rfl
+  have harm := hy.armed; have harm' := hy.armed'; have hex := hy.excl; have htight := hy.tight
+  have hfed := hy.fed
+  refine ⟨⟨hinv, hy.ir, hy.reg, ?_, ?_, ?_, ?_, hy.fed, hy.pend, hy.qne⟩, ?_⟩
+  · show y.x.a.sendQ ≠ [] → (po = true ∨ sup = true)
+    intro hne
+    rcases hcase with ⟨_, _, h3, h4⟩ | ⟨_, _, h3, h4⟩ | ⟨_, _, h3, h4⟩ | ⟨_, h2, h3, h4⟩
+    · right; rw [h4]; rcases harm hne with h | h <;> simp [h]
+    · rw [h3, h4]; exact harm hne
+    · left; exact h3
+    · rw [h3]; rcases harm hne with h | h
+      · exact Or.inl h
+      · rw [h2] at h; cases h
+  · show (po = true ∨ sup = true) → y.x.a.sendQ ≠ []
+    intro hor
+    rcases hcase with ⟨_, _, h3, h4⟩ | ⟨_, _, h3, h4⟩ | ⟨_, h2, h3, h4⟩ | ⟨_, h2, h3, h4⟩
+    · rcases hor with h | h
+      · rw [h3] at h; cases h
+      · rw [h4] at h
+        rcases Bool.or_eq_true_iff.mp h with h | h
+        · exact harm' (Or.inr h)
+        · exact harm' (Or.inl h)
+    · rw [h3, h4] at hor; exact harm' hor
+    · exact harm' (Or.inr h2)
+    · rcases hor with h | h
+      · rw [h3] at h; exact harm' (Or.inl h)
+      · rw [h4] at h; cases h
+  · show ¬ (po = true ∧ sup = true)
+    rintro ⟨hp, hs⟩
+    rcases hcase with ⟨_, _, h3, h4⟩ | ⟨_, _, h3, h4⟩ | ⟨_, _, h3, h4⟩ | ⟨_, _, h3, h4⟩
+    · rw [h3] at hp; cases hp
+    · rw [h3] at hp; rw [h4] at hs; exact hex ⟨hp, hs⟩
+    · rw [h4] at hs; cases hs
+    · rw [h4] at hs; cases hs
+  · show y.x.s.e.stage < 3 → y.x.s.g.lastError = .wantRead ∨
+      (y.x.s.e = Hs.init P u ∧ y.x.s.g.lastError = .none ∧ sup = false)
+    intro hlt
+    rcases hcase with ⟨_, h2, _, _⟩ | ⟨_, h2, _, h4⟩ | ⟨h1, _, _, _⟩ | ⟨h1, _, _, _⟩
+    · exact Or.inl h2
+    · rcases htight hlt with h | ⟨a, b, c⟩
+      · rw [h2] at h; cases h
+      · exact Or.inr ⟨a, b, by rw [h4]; exact c⟩
+    · omega
+    · omega
+  · intro hcp hin
+    obtain ⟨hlt, hor⟩ := hcp
+    have hwr : y.x.s.e.writes = true := by
+      rcases hor with h | h
+      · exact h
+      · omega
+    rcases htight hlt with hl | ⟨he, hl, hs⟩
+    · have := hy.reads hl hlt; rw [this] at hwr; cases hwr
+    · have hu : u = true := by
+        rw [he] at hwr
+        simpa [Hs.init, Hs.writes] using hwr
+      have hne := hfed hu hlt
+      have hpo : y.x.a.pollOut = true := by
+        rcases harm hne with h | h
+        · exact h
+        · rw [hs] at h; cases h
+      rcases hcase with ⟨_, h2, _, _⟩ | ⟨_, _, h3, _⟩ | ⟨h1, _, _, _⟩ | ⟨h1, _, _, _⟩
+      · rw [hl] at h2; cases h2
+      · rw [h3]; exact hpo
+      · omega
+      · omega
+
+theorem supFrameG (r : Bool) (b : Bool) : Frame (chanWorld r) (fun s : St Hs Chan => s.g.driverSendSuppressed = b) where
+  core := fun h hc => hc.2.2.2.trans h
+  wait := fun _ _ h => h
+  bioRead := by intro s n h; rw [(bioRead_core (W := chanWorld r) s n).2.2.1]; exact h
+  bioWrite := by intro s bs h; rw [(bioWrite_ctl (W := chanWorld r) s bs).1.2.2.2]; exact h
+
+/-- what a driver task does to the composition -/
+structure TaskRes (P : HsP) (u : Bool) (dc ds : Bytes) (y y' : SysAG) : Prop where
+  inv : GInv P u dc ds y'
+  ep : y'.ep = y.ep
+  wk : work P y'.x.s.e ≤ work P y.x.s.e
+  out : y.x.s.w.out u ≤ y'.x.s.w.out u
+  st : y.x.s.e.stage ≤ y'.x.s.e.stage
+
+theorem task_spec (C : Cfg) (hC : 1 < C.stepsMax) (P : HsP) (u : Bool) (dc ds : Bytes) (rx : Nat) (hrx : 1 ≤ rx)
+    (y : SysAG) (hy : GInv P u dc ds y) :
+    TaskRes P u dc ds y (SysAG.task C P u rx y) ∧
+    (CanProg u y.x.s.e y.x.s.w → (0 < y.x.s.w.inb u ∨ y.x.a.pollOut = true) →
+      work P (SysAG.task C P u rx y).x.s.e < work P y.x.s.e) := by
+  by_cases hin : 0 < y.x.s.w.inb u
+  · -- the readable task
+    have hside := hy.side y.x.s.g.pendingSend (Or.inr rfl)
+    obtain ⟨bs, s', e1, side1, t1, g1, tight1, _⟩ :=
+      receiveReadable_hs C (by omega) P u y.x.s.g.pendingSend rx hrx y.x.s hside hin
+    have hsup' : s'.g.driverSendSuppressed = y.x.s.g.driverSendSuppressed := by
+      have := (supFrameG u y.x.s.g.driverSendSuppressed).receiveReadable C (engine P) y.x.s rx rfl
+      rw [e1] at this; exact this
+    have hir' : s'.g.isReadable = false := by
+      have := receiveReadable_ir C (by omega) P u rx y.x.s hy.wf hy.lastErr
+      rw [e1] at this; exact this
+    have htask0 : aTask C (chanWorld u) (engine P) rx y.x (y.rev u) = aReadable C (chanWorld u) (engine P) rx y.x := by
+      simp [aTask, hy.reg, SysAG.rev, hin]
+    have htask : ∃ a', aTask C (chanWorld u) (engine P) rx y.x (y.rev u) = (.ok (), ⟨a', s'⟩) ∧
+        a'.pollOut = y.x.a.pollOut ∧ a'.registered = y.x.a.registered ∧ a'.sendQ = y.x.a.sendQ := by
+      rw [htask0]
+      simp only [aReadable, e1]
+      cases bs with
+      | nil => exact ⟨_, rfl, rfl, rfl, rfl⟩
+      | cons b t => exact ⟨_, rfl, rfl, rfl, rfl⟩
+    obtain ⟨a', ht, hpo', hreg', hq'⟩ := htask
+    have hstep : SysAG.task C P u rx y = { y with x := ⟨a', s'⟩, faults := y.faults + 0 } := by
+      simp only [SysAG.task, ht, isOk, if_true]
+    rw [hstep]
+    have hpend' : s'.g.pendingSend = [] ∨ s'.g.pendingSend = y.x.s.g.pendingSend := side1.2.2.2.2.2.2.2
+    refine ⟨⟨⟨sys_upd P u dc ds y hy.inv _ s' side1 t1 a' _ rfl, hir', by rw [← hy.reg]; exact hreg', ?_, ?_, ?_, ?_, ?_,
+      ?_, ?_⟩, rfl, t1.wk, t1.outLe, t1.st⟩, fun hcp _ => g1 hcp⟩
+    · show a'.sendQ ≠ [] → (a'.pollOut = true ∨ s'.g.driverSendSuppressed = true)
+      rw [hq', hpo', hsup']; exact hy.armed
+    · show (a'.pollOut = true ∨ s'.g.driverSendSuppressed = true) → a'.sendQ ≠ []
+      rw [hq', hpo', hsup']; exact hy.armed'
+    · show ¬ (a'.pollOut = true ∧ s'.g.driverSendSuppressed = true)
+      rw [hpo', hsup']; exact hy.excl
+    · intro hlt
+      exact Or.inl (tight1 hlt)
+    · show u = true → s'.e.stage < 3 → a'.sendQ ≠ []
+      intro hu hlt
+      rw [hq']
+      exact hy.fed hu (by have := t1.st; omega)
+    · show s'.g.pendingSend = [] ∨ ∃ rest, a'.sendQ = s'.g.pendingSend :: rest
+      rw [hq']
+      rcases hpend' with h | h
+      · exact Or.inl h
+      · rw [h]; exact hy.pend
+    · show ∀ b ∈ a'.sendQ, b ≠ []
+      rw [hq']; exact hy.qne
+  · by_cases hpo : y.x.a.pollOut = true
+    · -- the writable task: a buffer is queued
+      have hne := hy.armed' (Or.inl hpo)
+      obtain ⟨buf, rest, hq⟩ : ∃ buf rest, y.x.a.sendQ = buf :: rest := by
+        cases hh : y.x.a.sendQ with
+        | nil => exact absurd hh hne
+        | cons b r => exact ⟨b, r, rfl⟩
+      have hbuf : buf ≠ [] := hy.qne buf (by rw [hq]; exact List.mem_cons_self ..)
+      have hpd : y.x.s.g.pendingSend = [] ∨ y.x.s.g.pendingSend = buf := by
+        rcases hy.pend with h | ⟨r', h⟩
+        · exact Or.inl h
+        · rw [hq] at h
+          exact Or.inr (List.cons.inj h).1.symm
+      have hside := hy.side buf hpd
+      obtain ⟨k, s', e1, side1, t1, g1, tight1, hir', hk⟩ := sendSomeWritable_hs C hC P u buf hbuf y.x.s hside hy.ir
+      have hsup0 : y.x.s.g.driverSendSuppressed = false := by
+        cases h : y.x.s.g.driverSendSuppressed with
+        | false => rfl
+        | true => exact absurd ⟨hpo, h⟩ hy.excl
+      have hsup' : s'.g.driverSendSuppressed = false := by
+        have := (supFrameG u false).sendSomeWritable C (engine P) y.x.s buf hsup0
+        rw [e1] at this; exact this
+      have htask0 : aTask C (chanWorld u) (engine P) rx y.x (y.rev u) = aWritable C (chanWorld u) (engine P) y.x := by
+        simp [aTask, hy.reg, SysAG.rev, hin, hpo]
+      have hlen : buf.length ≠ 0 := by simpa using hbuf
+      rcases hk with ⟨k1, k2, k3, k4⟩ | k0
+      · -- the whole buffer went out: the handshake is finished
+        have htask : aTask C (chanWorld u) (engine P) rx y.x (y.rev u) =
+            (.ok (), { a := { y.x.a with sendQ := rest, futures := .ok :: y.x.a.futures,
+                                         pollOut := if rest.isEmpty then false else y.x.a.pollOut }, s := s' }) := by
+          rw [htask0]
+          simp only [aWritable, hq, e1, k1, if_true]
+        have hstep : SysAG.task C P u rx y =
+            { y with x := { a := { y.x.a with sendQ := rest, futures := .ok :: y.x.a.futures,
+                                              pollOut := if rest.isEmpty then false else y.x.a.pollOut }, s := s' },
+                     faults := y.faults + 0 } := by
+          simp only [SysAG.task, htask, isOk, if_true]
+        rw [hstep]
+        refine ⟨⟨⟨sys_upd P u dc ds y hy.inv _ s' side1 t1 _ _ rfl, hir', hy.reg, ?_, ?_, ?_, ?_, ?_, Or.inl k4, ?_⟩,
+          rfl, t1.wk, t1.outLe, t1.st⟩, fun hcp _ => g1 hcp⟩
+        · show rest ≠ [] → ((if rest.isEmpty then false else y.x.a.pollOut) = true ∨ s'.g.driverSendSuppressed = true)
+          intro hr
+          have : rest.isEmpty = false := by cases rest <;> simp_all
+          left; rw [this]; simpa using hpo
+        · show ((if rest.isEmpty then false else y.x.a.pollOut) = true ∨ s'.g.driverSendSuppressed = true) → rest ≠ []
+          intro hor
+          rcases hor with h | h
+          · intro hr; subst hr; simp at h
+          · rw [hsup'] at h; cases h
+        · show ¬ ((if rest.isEmpty then false else y.x.a.pollOut) = true ∧ s'.g.driverSendSuppressed = true)
+          intro h; rw [hsup'] at h; exact absurd h.2 (by simp)
+        · intro hlt; exact absurd (show s'.e.stage < 3 from hlt) (by omega)
+        · intro _ hlt; exact absurd (show s'.e.stage < 3 from hlt) (by omega)
+        · show ∀ b ∈ rest, b ≠ []
+          intro b hb; exact hy.qne b (by rw [hq]; exact List.mem_cons_of_mem _ hb)
+      · -- nothing went out: the handshake is waiting for the peer
+        subst k0
+        have htask : aTask C (chanWorld u) (engine P) rx y.x (y.rev u) =
+            (.ok (), { a := { y.x.a with sendQ := buf :: rest }, s := s' }) := by
+          rw [htask0]
+          simp only [aWritable, hq, e1]
+          rw [if_neg (by intro h; exact hlen h.symm)]
+          simp
+        have hstep : SysAG.task C P u rx y =
+            { y with x := { a := { y.x.a with sendQ := buf :: rest }, s := s' }, faults := y.faults + 0 } := by
+          simp only [SysAG.task, htask, isOk, if_true]
+        rw [hstep]
+        refine ⟨⟨⟨sys_upd P u dc ds y hy.inv _ s' side1 t1 _ _ rfl, hir', hy.reg, ?_, ?_, ?_, ?_, ?_, ?_, ?_⟩,
+          rfl, t1.wk, t1.outLe, t1.st⟩, fun hcp _ => g1 hcp⟩
+        · intro _; exact Or.inl hpo
+        · intro _; simp
+        · show ¬ (y.x.a.pollOut = true ∧ s'.g.driverSendSuppressed = true)
+          intro h; rw [hsup'] at h; exact absurd h.2 (by simp)
+        · intro hlt; exact Or.inl (tight1 hlt)
+        · intro _ _; simp
+        · show s'.g.pendingSend = [] ∨ ∃ r', buf :: rest = s'.g.pendingSend :: r'
+          rcases side1.2.2.2.2.2.2.2 with h | h
+          · exact Or.inl h
+          · right; refine ⟨rest, ?_⟩
+            have : (nf s').g.pendingSend = s'.g.pendingSend := rfl
+            rw [← this, h]
+        · show ∀ b ∈ buf :: rest, b ≠ []
+          rw [← hq]; exact hy.qne
+    · -- nothing to do
+      have htask : aTask C (chanWorld u) (engine P) rx y.x (y.rev u) = (.ok (), y.x) := by
+        simp [aTask, hy.reg, SysAG.rev, hin, hpo]
+      have hstep : SysAG.task C P u rx y = { y with faults := y.faults + 0 } := by
+        simp only [SysAG.task, htask, isOk, if_true]
+      rw [hstep]
+      refine ⟨⟨⟨hy.inv, hy.ir, hy.reg, hy.armed, hy.armed', hy.excl, hy.tight, hy.fed, hy.pend, hy.qne⟩, rfl, Nat.le_refl _,
+        Nat.le_refl _, Nat.le_refl _⟩, ?_⟩
+      intro _ hor
+      rcases hor with h | h
+      · exact absurd h hin
+      · exact absurd h hpo
+
 end SockModel.Hs
